@@ -266,7 +266,7 @@ class DiskFile(VirtualFileContainer):
         return True
 
     def list_files(self, filenames=None):
-        if len(self.buffer) < DiskConstants.IMAGE_SIZE:
+        if len(self.buffer) != DiskConstants.IMAGE_SIZE:
             raise VirtualFileValidationError("Disk image size is not {:,d} bytes long".format(DiskConstants.IMAGE_SIZE))
         files = []
 
